@@ -94,7 +94,9 @@ func (st *StateDB) UpdateValidator(newVal, oldVal *Validator) bool {
 
 	newMainAddress := newVal.MainAddress()
 	st.setValidator(newVal)
-	st.validatorJournal.append(validatorUpdateChange{address: &newMainAddress, newVal: newVal, oldVal: oldVal})
+	// journal a frozen copy of newVal: callers go on mutating the live object in place
+	// (GetValidatorsForUpdate pattern) and revert must undo the statistics as they were moved here.
+	st.validatorJournal.append(validatorUpdateChange{address: &newMainAddress, newVal: newVal.PartialCopy(), oldVal: oldVal})
 
 	if !newVal.StakeEqual(oldVal) {
 		st.decrValidatorsStat(oldVal)
